@@ -137,3 +137,72 @@ PROPS['C09']['rules'] += [R(lv.rule_LV3), R(lv.rule_LV1), R(lv.rule_LV2)]
 PROPS['C09']['floors'].update({'LV3': 7, 'LV1': 7})
 PROPS['C09']['explanation'] += (' No receive is left unmatched at shutdown: shutdown waits unconditionally for all started coroutines '
                                 'before synchronising and closing (LV1-LV3).')
+
+from . import rules_ss as ss
+from . import rules_mk as mk
+
+PROPS['C07'] = {
+    'rules': [R(ss.rule_SS6), R(ss.rule_SO1), R(ss.rule_SS4), R(mk.rule_MK4), R(mk.rule_NR1), R(pc.rule_PC6)],
+    'floors': {'SS6': 9, 'SO1': 4, 'SS4': 9, 'MK4': 6, 'NR1': 1, 'PC6': 8},
+    'explanation': 'Decides who sends what to whom: for output, _reshare, transfer and _distribute the (sender, receiver) pairs implied by '
+                   'the send guard equal those implied by the receive enumeration, as offset intervals modulo m normalised from the '
+                   'expression syntax (SS6); result slots are indexed by the position in the sender list (SO1); the x-coordinate of every '
+                   'recombination point is <party received from>+1 (SS4); destinations derive only from the receivers arguments and the '
+                   'non-receiver branch yields None without recombining (MK4, NR1).',
+    'assumptions': ['sender/receiver lists contain valid, distinct party ids (API precondition)'],
+    'level': 'Static routing-duality analysis (symbolic offset intervals mod m, linear forms) of the four routing coroutines plus provenance of '
+             'destinations and slot indices. Decides that every receiver collects exactly the shares sent to it, attributed to the right party '
+             'and position, for every m, t and receiver/sender set; payload arithmetic (Lagrange) is not decided here (see C12).',
+}
+PROPS['C12'] = {
+    'rules': [R(ss.rule_SS3), R(ss.rule_SS4), R(ss.rule_SS7)],
+    'floors': {'SS3': 9, 'SS4': 9, 'SS7': 8},
+    'explanation': 'Convention and sibling clauses only: split evaluates a polynomial with constant term = secret and t further coefficients at the '
+                   'points 1..m (in the modulus\' arithmetic), row x-1 <-> point x (SS3, SS4); the recombination vector is the Lagrange basis with '
+                   'numerator and denominator oriented alike over all j != i, and list/array variants share it with the same default point (SS7).',
+    'assumptions': ['field arithmetic of finfields is correct (C20)'],
+    'level': 'Static structural check of thresha: dealer polynomial shape, point convention, Lagrange factor orientation, list/array sibling '
+             'agreement. These are necessary conditions for split/recombine being inverse; the Lagrange algebra itself is not proved.',
+}
+PROPS['C13'] = {
+    'rules': [R(ss.rule_SS3)],
+    'floors': {'SS3': 9},
+    'explanation': 'Dealer-randomness clause: exactly t coefficients per secret, each a direct secrets.randbelow(field.order) draw, drawn afresh '
+                   'inside the per-secret loop, every one multiplied by a positive power of the evaluation point, constant term the secret; array '
+                   'variant t*n draws reshaped (t, n) under the secret row. Uniformity of any t shares follows from this shape (Vandermonde argument).',
+    'assumptions': ['secrets.randbelow is uniform', 'evaluation points 1..m are distinct nonzero field elements (m < field order, C39)'],
+    'level': 'Static shape check of the dealer in thresha.random_split / np_random_split. Decides the clause from which perfect secrecy follows '
+             'mathematically; it does not enumerate distributions.',
+}
+PROPS['C14'] = {
+    'rules': [R(ss.rule_SS2), R(ss.rule_SS3), R(ss.rule_SS5)],
+    'floors': {'SS2': 2, 'SS3': 9, 'SS5': 2},
+    'explanation': 'Every protocol dealing (input, resharing) passes the runtime\'s current threshold and party count to the split (reaching '
+                   'definitions through local aliases) (SS2); the split draws fresh full-degree coefficients (SS3); the payload of every message of '
+                   'a dealing coroutine derives only from the split\'s output (SS5).',
+    'assumptions': ['randomness dealt without PRSS goes through Runtime.input (checked: _randoms/_np_randoms/random_bits call self.input)'],
+    'level': 'Static provenance analysis (reaching definitions, call resolution through local aliases) of what is dealt and sent by _distribute and '
+             '_reshare, plus the dealer shape. Necessary conditions for "full-degree fresh polynomial, nothing in the clear".',
+}
+PROPS['C15'] = {
+    'rules': [R(pc.rule_PC9), R(ss.rule_SS4), R(ss.rule_PR1), R(fr.rule_KEY1), R(fr.rule_HS1)],
+    'floors': {'PC9': 14, 'SS4': 9, 'PR1': 12, 'KEY1': 9, 'HS1': 12},
+    'explanation': 'Provenance/convention clauses: all parties feed the same fresh common input, their own pid, the party count and PRFs built '
+                   'from exactly the held keys (PC9, KEY1); f_S is 1 at 0 and 0 at j+1 for j outside S, evaluated at i+1 (SS4); every subset PRF '
+                   'contributes prf_S(uci)*f_S(i); zero-sharings use d = m-|S| values per secret as coefficients of x^1..x^d; list and array variants '
+                   'agree on counts (PR1); the keys the PRFs are built from are cut correctly from the handshake (HS1).',
+    'assumptions': ['PRF outputs are a deterministic function of key and input (C17)'],
+    'level': 'Static provenance and sibling analysis of the PRSS functions and their 16 call sites. Decides the structural reasons for consistency; '
+             'the polynomial identity itself is not proved.',
+}
+PROPS['C19'] = {
+    'rules': [R(mk.rule_MK3), R(mk.rule_MK4)],
+    'floors': {'MK3': 9, 'MK4': 6},
+    'explanation': 'Destinations of output/transfer messages derive only from the receivers arguments (default all parties only under `is None`), '
+                   'non-receivers never collect or recombine (MK4); every _output implementation (SecureFloat, secure groups, secure polynomials) '
+                   'forwards receivers and threshold unchanged to each nested opening; SecureFloat\'s only extra interaction is a fresh input by a '
+                   'receiver and a resharing product (MK3).',
+    'assumptions': ['receivers is a collection of party ids'],
+    'level': 'Static provenance analysis of message destinations and of the receivers/threshold arguments of nested openings. Decides that no '
+             'message of an output/transfer can be addressed to a party outside the receivers.',
+}
